@@ -118,9 +118,46 @@ Theorem C10_every_schedule_never_killed :
   w_kill (b_w (fst (run_sched_g false yr pb (bs_wp b) (sc_env sc) (sc_nlocks sc) (binit b) sched))) l = false.
 Proof. exact WpMain.every_schedule_never_killed. Qed.
 
+(* "executions without panics never poison it", for EVERY schedule of the interleaved model: if no thread's program
+   contains a `panic!` or a panicking closure (the decidable test [wfB_np]: [wfB] plus that), every poison flag is clear in
+   every state reached under every schedule — whatever acquisitions, guards, scoped calls, try failures, retries and
+   waits happen on the way.  Proof: the program logic of Wp.v is parametric in whether [OPoison] is permitted; with the
+   permission withdrawn every API call without a panic still has its triple (a closure without a panic never throws, so
+   nothing is demanded of the unwind handlers, and a guard that is dropped normally does not run the poisoning branch of
+   PoisonRef::drop), and the world invariant then keeps all flags clear. *)
+Theorem C10_every_schedule_no_panic_no_poison :
+  forall yr pb b sched p, WpMain.wfB_np b = true ->
+  let sc := bs_sc b in
+  w_psn (b_w (fst (run_sched_g false yr pb (bs_wp b) (sc_env sc) (sc_nlocks sc) (binit b) sched))) p = false.
+Proof. exact WpMain.every_schedule_no_panic_no_poison. Qed.
+
+Check C10_every_schedule_no_panic_no_poison :
+  forall yr pb b sched p, WpMain.wfB_np b = true ->
+  let sc := bs_sc b in
+  w_psn (b_w (fst (run_sched_g false yr pb (bs_wp b) (sc_env sc) (sc_nlocks sc) (binit b) sched))) p = false.
+
+(* non-vacuity: three threads over poisonable roots (a wrapped lock, a wrapped boxed collection) in every flavour, contended;
+   and the test rejects a program with a panicking closure *)
+Definition ex10s : bscen :=
+  mkbs (mks 3 2 [1; 0; 2] []
+            [SPoison 0 (SLeaf KMutex 0);
+             SPoison 1 (SBoxed (SSeq [SLeaf KRw 1; SLeaf KRw 2]));
+             SRetry (SSeq [SLeaf KRw 2; SPoison 0 (SLeaf KMutex 0)])] [] [] [] 40 [])
+       true
+       [[AKeyGet; AAcquire 0 Ex FGuard; AGuardWrite 0; AGuardDrop; AKeyGet; AAcquire 1 Sh (FScoped true [CRead 1])];
+        [AKeyGet; AAcquire 2 Ex (FScoped false [CWrite 1]); AKeyGet; AAcquire 1 Ex FTry; AGuardUnlock];
+        [AKeyGet; AAcquire 1 Ex (FScopedTry true [CWrite 0]); AAcquire 0 Ex FGuard; AGuardDrop]].
+Example C10_wfB_np_example : WpMain.wfB_np ex10s = true.
+Proof. vm_compute. reflexivity. Qed.
+Example C10_wfB_np_rejects_panicking_closure :
+  WpMain.wfB_np (mkbs (mks 1 1 [0] [] [SPoison 0 (SLeaf KMutex 0)] [] [] [] 8 []) false
+                      [[AKeyGet; AAcquire 0 Ex (FScoped true [CPanic])]]) = false.
+Proof. vm_compute. reflexivity. Qed.
+
 Print Assumptions C10_no_panic_no_poison.
 Print Assumptions C10_guard_panic_poisons.
 Print Assumptions C10_own_scoped_panic_poisons.
 Print Assumptions C10_refuted_scoped_collection.
 Print Assumptions C10_every_history_relaxed.
 Print Assumptions C10_every_schedule_never_killed.
+Print Assumptions C10_every_schedule_no_panic_no_poison.
